@@ -36,9 +36,9 @@ TRUSTED_BASE = [
     "the Python correspondence harness: scripted generator, probe model, in-memory h5py stand-in, comparison tolerances "
     "(exact for integers/booleans/indices/copied values, 1e-9 relative for computed floats)",
     "floats modelled as real numbers in the theorems (rounding, overflow, u<=ar at 2^-53 not covered)",
-    "where Props/<id>_src.v exists: the fail-closed Python-ast translators tools/py2coq.py / tools/py2coq_num.py, which regenerate "
+    "where Props/<id>_src.v exists: the fail-closed Python-ast translators tools/py2coq.py / tools/py2coq_num.py / tools/py2coq_h5.py / tools/py2coq_state.py, which regenerate "
     "coq/theories/Gen/*.v from /repo's working tree on every run (Python's // and % rendered as Z.div / Z.modulo, chained comparisons as "
-    "conjunctions, decimal literals as exact rationals over the reals, self.<attr> reads as parameters); what they cannot render is omitted, "
+    "conjunctions, decimal literals as exact rationals over the reals, self.<attr> reads as parameters, a property whose getter is `return self._x` as the attribute _x); what they cannot render is omitted, "
     "so that its theorem fails",
 ]
 
@@ -68,7 +68,8 @@ class Lock:
 SRC_SCOPE = {'theories/Gen/Src': ['C02', 'C08', 'C09', 'C13', 'C15'], 'theories/SrcTie_clock': ['C02', 'C15'], 'theories/SrcTie_density': ['C02'], 'theories/SrcTie_window': ['C13'],
              'theories/SrcTie_pt': ['C09'], 'theories/SrcTie_chain': ['C08'], 'theories/Gen/SrcNum': ['C01', 'C03'], 'theories/SrcTie_mh': ['C01'],
              'theories/SrcTie_swap': ['C03'], 'theories/SrcSupport': ['C01', 'C03', 'C20'], 'theories/Gen/SrcAdapt': ['C13'],
-             'theories/SrcTie_adapt': ['C13'], 'theories/Gen/SrcLadder': ['C17'], 'theories/SrcTie_ladder': ['C17'], 'theories/Gen/SrcCalls': ['C18'], 'theories/Gen/SrcRng': ['C04'], 'theories/Gen/SrcH5': ['C20'], 'theories/SrcTie_h5': ['C20']}
+             'theories/SrcTie_adapt': ['C13'], 'theories/Gen/SrcLadder': ['C17'], 'theories/SrcTie_ladder': ['C17'], 'theories/Gen/SrcCalls': ['C18'], 'theories/Gen/SrcRng': ['C04'], 'theories/Gen/SrcH5': ['C20'], 'theories/SrcTie_h5': ['C20'],
+             'theories/Gen/SrcState': ['C05'], 'theories/SrcTie_state': ['C05']}
 
 
 def translate_sources():
@@ -76,7 +77,8 @@ def translate_sources():
     rc, out = sh('%s %s %s' % (sys.executable, os.path.join(VERIF, 'tools', 'py2coq.py'), os.path.join(THEORIES, 'Gen', 'Src.v') + ' ' + os.path.join(THEORIES, 'Gen', 'SrcCalls.v') + ' ' + os.path.join(THEORIES, 'Gen', 'SrcRng.v')), timeout=120)
     rc2, out2 = sh('%s %s %s' % (sys.executable, os.path.join(VERIF, 'tools', 'py2coq_num.py'), os.path.join(THEORIES, 'Gen', 'SrcNum.v') + ' ' + os.path.join(THEORIES, 'Gen', 'SrcAdapt.v') + ' ' + os.path.join(THEORIES, 'Gen', 'SrcLadder.v')), timeout=120)
     rc3, out3 = sh('%s %s %s' % (sys.executable, os.path.join(VERIF, 'tools', 'py2coq_h5.py'), os.path.join(THEORIES, 'Gen', 'SrcH5.v')), timeout=120)
-    return '\n'.join(x.strip() for x in (out, out2, out3) if x.strip())
+    rc4, out4 = sh('%s %s %s' % (sys.executable, os.path.join(VERIF, 'tools', 'py2coq_state.py'), os.path.join(THEORIES, 'Gen', 'SrcState.v')), timeout=120)
+    return '\n'.join(x.strip() for x in (out, out2, out3, out4) if x.strip())
 
 
 def ensure_build():
